@@ -609,3 +609,151 @@ fn peer_traffic<R: role::RoleType>(
         feed(run, rng, b, g, st, abuse);
     }
 }
+
+// ------------------------------------------------------------------------------------------
+// exhaustive send-gating matrix (C11): role x version x status x 29 kinds x {persistent, offline}
+
+fn kind_packet(rng: &mut Rng, pver: u64, ty: u64, pid: u64) -> Option<Packet> {
+    match ty {
+        1 => Some(mk_connect(rng, pver)),
+        2 => Some(if pver == 4 {
+            v3_1_1::Connack::builder().session_present(false).return_code(ConnectReturnCode::Accepted).build().unwrap().into()
+        } else {
+            v5_0::Connack::builder().session_present(false).reason_code(ConnectReasonCode::Success).build().unwrap().into()
+        }),
+        3 => {
+            if pver == 4 {
+                v3_1_1::GenericPublish::<Pid>::builder().topic_name("t/1").ok()?.qos(Qos::AtLeastOnce).packet_id(pid as Pid).payload(vec![1u8]).build().ok().map(|x| x.into())
+            } else {
+                v5_0::GenericPublish::<Pid>::builder().topic_name("t/1").ok()?.qos(Qos::AtLeastOnce).packet_id(pid as Pid).payload(vec![1u8]).build().ok().map(|x| x.into())
+            }
+        }
+        4 | 5 | 6 | 7 | 9 | 11 => {
+            // plain acknowledgement without reason code
+            let id = pid as Pid;
+            Some(if pver == 4 {
+                match ty {
+                    4 => v3_1_1::GenericPuback::<Pid>::builder().packet_id(id).build().ok()?.into(),
+                    5 => v3_1_1::GenericPubrec::<Pid>::builder().packet_id(id).build().ok()?.into(),
+                    6 => v3_1_1::GenericPubrel::<Pid>::builder().packet_id(id).build().ok()?.into(),
+                    7 => v3_1_1::GenericPubcomp::<Pid>::builder().packet_id(id).build().ok()?.into(),
+                    9 => v3_1_1::GenericSuback::<Pid>::builder().packet_id(id).return_codes(vec![SubackReturnCode::SuccessMaximumQos0]).build().ok()?.into(),
+                    _ => v3_1_1::GenericUnsuback::<Pid>::builder().packet_id(id).build().ok()?.into(),
+                }
+            } else {
+                match ty {
+                    4 => v5_0::GenericPuback::<Pid>::builder().packet_id(id).build().ok()?.into(),
+                    5 => v5_0::GenericPubrec::<Pid>::builder().packet_id(id).build().ok()?.into(),
+                    6 => v5_0::GenericPubrel::<Pid>::builder().packet_id(id).build().ok()?.into(),
+                    7 => v5_0::GenericPubcomp::<Pid>::builder().packet_id(id).build().ok()?.into(),
+                    9 => v5_0::GenericSuback::<Pid>::builder().packet_id(id).reason_codes(vec![SubackReasonCode::GrantedQos0]).build().ok()?.into(),
+                    _ => v5_0::GenericUnsuback::<Pid>::builder().packet_id(id).reason_codes(vec![UnsubackReasonCode::Success]).build().ok()?.into(),
+                }
+            })
+        }
+        8 => mk_sub(pver, pid, false),
+        10 => mk_sub(pver, pid, true),
+        12 | 13 | 14 => mk_simple(pver, ty),
+        _ => if pver == 5 { mk_simple(5, 15) } else { None },
+    }
+}
+
+fn matrix_cell<R: role::RoleType>(role_n: u64, cver: u64, status: u64, as_client: bool, persistent: bool, offline: bool, pver: u64, ty: u64, st: &mut CaseStats) -> Option<String> {
+    let version = match cver {
+        4 => Version::V3_1_1,
+        5 => Version::V5_0,
+        _ => Version::Undetermined,
+    };
+    let mut rng = Rng::new(7);
+    let mut run = Runner::<R>::new(version, role_n, cver);
+    run.out.insert(0, 1);
+    if offline {
+        run.apply(&Op::SetFlag(6, true), st);
+    }
+    let wire = if cver == 0 { 4 } else { cver };
+    let connect: Packet = if wire == 4 {
+        v3_1_1::Connect::builder().client_id("cid").unwrap().clean_session(!persistent).keep_alive(0u16).build().unwrap().into()
+    } else {
+        let mut props: Vec<Property> = Vec::new();
+        if persistent {
+            props.push(mqtt::packet::SessionExpiryInterval::new(100).unwrap().into());
+        }
+        v5_0::Connect::builder().client_id("cid").unwrap().clean_start(!persistent).keep_alive(0u16).props(props).build().unwrap().into()
+    };
+    let connack: Packet = if wire == 4 {
+        v3_1_1::Connack::builder().session_present(false).return_code(ConnectReturnCode::Accepted).build().unwrap().into()
+    } else {
+        v5_0::Connack::builder().session_present(false).reason_code(ConnectReasonCode::Success).build().unwrap().into()
+    };
+    if status >= 1 {
+        if as_client {
+            run.apply(&Op::Send(connect.clone()), st);
+        } else {
+            run.apply(&Op::Recv(bytes_of(&connect)), st);
+        }
+    }
+    if status >= 2 {
+        if as_client {
+            run.apply(&Op::Recv(bytes_of(&connack)), st);
+        } else {
+            run.apply(&Op::Send(connack.clone()), st);
+        }
+    }
+    let reached = run.conn.as_ref().unwrap().verif_state().status as u64;
+    if reached != status {
+        return None; // this cell is not reachable for the role (e.g. a client cannot receive CONNECT)
+    }
+    let mut pid = 1u64;
+    if matches!(ty, 3 | 6 | 8 | 10) {
+        run.apply(&Op::Acquire, st);
+        pid = run.last_acquired.take().unwrap_or(1);
+    }
+    let p = kind_packet(&mut rng, pver, ty, pid)?;
+    run.apply(&Op::Send(p), st);
+    Some(run.line())
+}
+
+pub fn gen_matrix(out: &mut Vec<String>, st: &mut CaseStats) -> (u64, u64) {
+    let mut cells = 0u64;
+    let mut unreachable = 0u64;
+    for role_n in 0..3u64 {
+        for cver in [4u64, 5, 0] {
+            for status in 0..3u64 {
+                if cver == 0 && status > 0 {
+                    continue;
+                }
+                let sides: &[bool] = match role_n {
+                    0 => &[true],
+                    1 => &[false],
+                    _ => &[true, false],
+                };
+                for as_client in sides {
+                    for flags in 0..4u64 {
+                        let persistent = flags & 1 != 0;
+                        let offline = flags & 2 != 0;
+                        for pver in [4u64, 5] {
+                            for ty in 1..=15u64 {
+                                if pver == 4 && ty == 15 {
+                                    continue;
+                                }
+                                let line = match role_n {
+                                    0 => matrix_cell::<role::Client>(role_n, cver, status, *as_client, persistent, offline, pver, ty, st),
+                                    1 => matrix_cell::<role::Server>(role_n, cver, status, *as_client, persistent, offline, pver, ty, st),
+                                    _ => matrix_cell::<role::Any>(role_n, cver, status, *as_client, persistent, offline, pver, ty, st),
+                                };
+                                match line {
+                                    Some(l) => {
+                                        cells += 1;
+                                        out.push(l)
+                                    }
+                                    None => unreachable += 1,
+                                }
+                            }
+                        }
+                    }
+                }
+            }
+        }
+    }
+    (cells, unreachable)
+}
